@@ -35,7 +35,7 @@ class Case:
 def cases(rnd: random.Random, thorough: bool) -> list[Case]:
     out: list[Case] = []
     A = out.append
-    n_t = 40 if thorough else 10
+    n_t = 2000 if thorough else 300
 
     def idx_cases(name, mk_args, expect_idx=True, extra_kwargs=None, code_has_idx_in_reply=True):
         for i in IDX_OK:
@@ -166,6 +166,13 @@ def cases(rnd: random.Random, thorough: bool) -> list[Case]:
         dst = rnd.random() < 0.5
         A(Case("set_system_time", (CTL, d), dict(is_dst=dst), True, {"datetime": d.isoformat(timespec="seconds"), "is_dst": dst if dst else None}))
     A(Case("set_system_time", (CTL, dt(2024, 2, 29, 23, 59, 59)), {}, True, {"datetime": "2024-02-29T23:59:59"}))
+    # a clock reading is not on a whole second: the sub-second part is below the wire's resolution (ends of every field)
+    for _ in range(n_t):
+        d = dt(rnd.choice((2000, 2024, 2079)), rnd.choice((1, 2, 12)), rnd.choice((1, 28)), rnd.choice((0, 23, rnd.randrange(24))),
+               rnd.choice((0, 59, rnd.randrange(60))), rnd.choice((0, 59, 59, rnd.randrange(60))), rnd.choice((1, 499999, 500000, 999999, rnd.randrange(10**6))))
+        dst = rnd.random() < 0.5
+        arg = d if rnd.random() < 0.6 else d.isoformat()
+        A(Case("set_system_time", (CTL, arg), dict(is_dst=dst), True, {"datetime": d.isoformat(timespec="seconds"), "is_dst": dst if dst else None}))
     # --- TPI
     for dom in (None, "FC", 0, "00"):
         A(Case("get_tpi_params", ("13:111111",), dict(domain_id=dom), True))
